@@ -174,6 +174,10 @@ fn apply(nodes: &mut [Node], ev: &Value) {
         "hdel" => {
             nodes[r].st.record_hash_delete(KEY.into(), vec![s("f")]);
         }
+        // a write to another key of the same shard: the shard's one clock moves
+        "tick" => {
+            nodes[r].st.record_write("another-key".into(), SDS::from_str("x"), None);
+        }
         "gcinc" => {
             let n = ev["n"].as_u64().unwrap();
             nodes[r].with_kind(CrdtValue::new_gcounter(), |c| matches!(c, CrdtValue::GCounter(_)), |c, rid| {
@@ -252,6 +256,23 @@ fn laws(nodes: &[Node]) -> Value {
 }
 
 /// The values the three replicas hold after a scenario (used by the C14 round-trip check).
+/// Per replica, the successive distinct states of the key along the scenario (what a node would stream one after the other).
+pub fn history_values(ops: &[Value]) -> Vec<(u64, Vec<ReplicatedValue>)> {
+    let mut nodes: Vec<Node> = (1..=3).map(Node::new).collect();
+    let mut hist: Vec<Vec<ReplicatedValue>> = vec![Vec::new(); 3];
+    for ev in ops {
+        let _ = catch(|| apply(&mut nodes, ev));
+        for (i, n) in nodes.iter().enumerate() {
+            if let Some(v) = n.val() {
+                if hist[i].last().map(|l| serde_json::to_string(l).ok() != serde_json::to_string(v).ok()).unwrap_or(true) {
+                    hist[i].push(v.clone());
+                }
+            }
+        }
+    }
+    nodes.iter().zip(hist).map(|(n, h)| (n.st.replica_id.0, h)).collect()
+}
+
 pub fn final_values(ops: &[Value]) -> Vec<(u64, ReplicatedValue)> {
     let mut nodes: Vec<Node> = (1..=3).map(Node::new).collect();
     for ev in ops {
@@ -348,8 +369,11 @@ pub fn random_ops(rng: &mut impl Rng, len: usize, kinds: &[&str]) -> Vec<Value> 
                     set_kind(&mut m[r], "hash");
                     m[r].fields.insert(f.into());
                     ops.push(json!({"a": "hset", "r": r + 1, "f": f, "v": vals[rng.gen_range(0..vals.len())]}));
-                } else if m[r].kind.as_deref() == Some("hash") && m[r].fields.contains(f) {
+                } else if m[r].kind.as_deref() == Some("hash") && (m[r].fields.contains(f) || choice == 9) {
+                    // (now and then of a field the hash does not hold: the value is stamped all the same)
                     ops.push(json!({"a": "hdel", "r": r + 1, "f": f}));
+                } else if choice == 8 {
+                    ops.push(json!({"a": "tick", "r": r + 1}));
                 }
             }
             "gcounter" => {
